@@ -377,3 +377,46 @@ def truthful_elem(v, d):
 def truthful(v):
     """C03 invariant of a one-dimensional vector (symbolically: for an arbitrary element)."""
     return all(truthful_elem(e, v._dtype) for e in v._underlying)
+
+
+# ------------------------------------------------------------------ C16 fingerprint
+FP_P = (1 << 61) - 1
+FP_B = 1315423911
+
+
+def hash_elem(x):
+    """Per-element hash used by the fingerprint: a deterministic function of the element
+    (natively serif's own _hash_element; symbolically an uninterpreted function)."""
+    return Vector._hash_element(x)
+
+
+def fp_step(total, x):
+    return (total * FP_B + hash_elem(x)) % FP_P
+
+
+def fp_prefix(values, k):
+    return fold(fp_step, 0, values, k)
+
+
+def fp_spec(values):
+    """Rolling polynomial hash of the element hashes, in order."""
+    return fp_prefix(values, len(values))
+
+
+def horner_step(total, h):
+    return (total * FP_B + h) % FP_P
+
+
+# ------------------------------------------------------------------ constructor protocol
+def type_call_vector(initial, dtype, name, as_row):
+    """What `Vector(initial, dtype=dtype, name=name, as_row=as_row)` does: type.__call__ runs
+    __new__ and then __init__ on the returned instance."""
+    inst = Vector.__new__(Vector, initial, dtype, name, as_row)
+    type(inst).__init__(inst, initial, dtype, name, as_row)
+    return inst
+
+
+def same_view(a, b):
+    """Equal abstract views (values, dtype, name, row flag)."""
+    return (tuple(a._underlying) == tuple(b._underlying) and a._dtype == b._dtype
+            and a._name == b._name and a._display_as_row == b._display_as_row)
